@@ -11,15 +11,21 @@ VARIABLE loaded
 AllComps == UNION {Comps[x] : x \in Inst}
 Ident == UNION {CompAliases[c] : c \in AllComps}
 LoadedComps(L) == UNION {Comps[x] : x \in L}
-Fprs(L) == {CompFpr[c] : c \in LoadedComps(L)}
-Carriers(L, a) == {c \in LoadedComps(L) : a \in CompAliases[c]}
-\* ---- allowed observations in a state where L is loaded
-FprsOK(L, got) == got = Fprs(L)
-SelOK(L, a, got) == IF Carriers(L, a) = {} THEN got = "none" ELSE got \in Carriers(L, a)
-HasOK(L, a, got) == got = (Carriers(L, a) # {})
-RECURSIVE ObjCount(_)
-ObjCount(L) == IF L = {} THEN 0 ELSE LET x == CHOOSE y \in L : TRUE IN Cardinality(Comps[x]) + ObjCount(L \ {x})
-LenOK(L, got) == got = ObjCount(L)          \* number of key objects (primaries and subkeys) held
+\* ---- observations as functions of the set C of key objects (components) held; a whole key is held as its components, and a
+\*      subkey object can also be loaded or unloaded on its own (Trace_C19 tracks C directly)
+FprsC(C) == {CompFpr[c] : c \in C}
+CarriersC(C, a) == {c \in C : a \in CompAliases[c]}
+FprsOKC(C, got) == got = FprsC(C)
+SelOKC(C, a, got) == IF CarriersC(C, a) = {} THEN got = "none" ELSE got \in CarriersC(C, a)
+HasOKC(C, a, got) == got = (CarriersC(C, a) # {})
+LenOKC(C, got) == got = Cardinality(C)     \* number of key objects (primaries and subkeys) held
+\* ---- the same for a set L of whole keys
+Fprs(L) == FprsC(LoadedComps(L))
+Carriers(L, a) == CarriersC(LoadedComps(L), a)
+FprsOK(L, got) == FprsOKC(LoadedComps(L), got)
+SelOK(L, a, got) == SelOKC(LoadedComps(L), a, got)
+HasOK(L, a, got) == HasOKC(LoadedComps(L), a, got)
+LenOK(L, got) == LenOKC(LoadedComps(L), got)
 \* ---- transitions
 Init == loaded = {}
 Load(x) == x \notin loaded /\ loaded' = loaded \cup {x}
